@@ -128,8 +128,8 @@ def interleaving(kind, seed, steps=25):
 def native_check(quick=True):
     fails, n = [], 0
     from drivers import C17 as D17
-    f = D17.failed_save() + D17.late_metadata()
-    n += 2
+    f = D17.failed_save() + D17.late_metadata() + D17.relative_folder()
+    n += 3
     if f:
         fails.append((("checkpoints through a ModelSaver that had a failed save before",), f[:2]))
     for kind in ("positive", "complex", "mixed"):
